@@ -8,6 +8,7 @@ import (
 	"github.com/btcsuite/btcd/btcec/v2"
 	sphinx "github.com/lightningnetwork/lightning-onion"
 	"github.com/lightningnetwork/lnd/lnwire"
+	"github.com/lightningnetwork/lnd/record"
 	"github.com/lightningnetwork/lnd/routing/route"
 	"github.com/lightningnetwork/lnd/tlv"
 	"github.com/stretchr/testify/require"
@@ -93,6 +94,35 @@ func f10Run(t *testing.T, ctx *pathFindingTestContext,
 
 	t.Helper()
 
+	return f10RunOpts(t, ctx, payment, amt, totalAmt, height, f10Opts{})
+}
+
+// f10Opts are optional final hop parameters of the payment.
+type f10Opts struct {
+	// destCustomRecords is put into RestrictParams.DestCustomRecords for
+	// pathfinding and into finalHopParams.records for newRoute, like
+	// ChannelRouter.FindRoute (QueryRoutes) and
+	// paymentSession.RequestRoute do.
+	destCustomRecords record.CustomSet
+
+	// metadata is put into RestrictParams.Metadata for pathfinding and into
+	// finalHopParams.metadata for newRoute, like
+	// paymentSession.RequestRoute does.
+	metadata []byte
+
+	// likeRequestRoute leaves RestrictParams.BlindedPaymentPathSet unset,
+	// which is what paymentSession.RequestRoute does (only the QueryRoutes
+	// rpc fills that field).
+	likeRequestRoute bool
+}
+
+// f10RunOpts is f10Run with optional final hop parameters.
+func f10RunOpts(t *testing.T, ctx *pathFindingTestContext,
+	payment *BlindedPayment, amt, totalAmt lnwire.MilliSatoshi,
+	height uint32, opts f10Opts) (*f10Result, bool) {
+
+	t.Helper()
+
 	pathSet, err := NewBlindedPaymentPathSet([]*BlindedPayment{payment})
 	require.NoError(t, err)
 
@@ -100,8 +130,12 @@ func f10Run(t *testing.T, ctx *pathFindingTestContext,
 	require.NoError(t, err)
 
 	restrictions := *noRestrictions
-	restrictions.BlindedPaymentPathSet = pathSet
+	if !opts.likeRequestRoute {
+		restrictions.BlindedPaymentPathSet = pathSet
+	}
 	restrictions.DestFeatures = pathSet.Features()
+	restrictions.DestCustomRecords = opts.destCustomRecords
+	restrictions.Metadata = opts.metadata
 
 	var (
 		target      = route.NewVertex(pathSet.TargetPubKey())
@@ -126,6 +160,8 @@ func f10Run(t *testing.T, ctx *pathFindingTestContext,
 			amt:       amt,
 			totalAmt:  totalAmt,
 			cltvDelta: finalExpiry,
+			records:   opts.destCustomRecords,
+			metadata:  opts.metadata,
 		}, pathSet,
 	)
 	require.NoError(t, err)
@@ -376,6 +412,172 @@ func TestF10BlindedLastHopSizeEstimate(t *testing.T) {
 				t.Errorf("route returned by pathfinding does "+
 					"not fit into the onion: %s", f)
 			}
+		})
+	}
+}
+
+// TestF10BlindedLastHopIgnoresDestCustomRecords shows that for a payment to an
+// introduction-node-only blinded path the final hop estimate of pathfinding
+// (blinded branch of lastHopPayloadSize) ignores RestrictParams.DestCustomRecords
+// and RestrictParams.Metadata, while newRoute attaches both to the final hop of
+// the blinded route. Pathfinding therefore returns routes which exceed the
+// onion size by the size of those records.
+func TestF10BlindedLastHopIgnoresDestCustomRecords(t *testing.T) {
+	t.Parallel()
+
+	const (
+		height uint32              = 100
+		amt    lnwire.MilliSatoshi = 100_000
+	)
+
+	policy := &testChannelPolicy{
+		Expiry:  40,
+		MinHTLC: 1,
+		MaxHTLC: 100_000_000,
+	}
+
+	// start -- a -- b -- intro.
+	testChannels := []*testChannel{
+		symmetricTestChannel("start", "a", 100_000, policy, 1),
+		symmetricTestChannel("a", "b", 100_000, policy, 2),
+		symmetricTestChannel("b", "intro", 100_000, policy, 3),
+	}
+
+	_, blindingPoint := btcec.PrivKeyFromBytes([]byte{0x55})
+
+	introOnly := func(introPk *btcec.PublicKey,
+		cipherLen int) *BlindedPayment {
+
+		return &BlindedPayment{
+			BlindedPath: &sphinx.BlindedPath{
+				IntroductionPoint: introPk,
+				BlindingPoint:     blindingPoint,
+				BlindedHops: []*sphinx.BlindedHopInfo{{
+					CipherText: bytes.Repeat(
+						[]byte{1}, cipherLen,
+					),
+				}},
+			},
+			CltvExpiryDelta: 40,
+			HtlcMinimum:     1,
+			HtlcMaximum:     100_000_000,
+			Features:        tlvFeatures,
+		}
+	}
+
+	blob := bytes.Repeat([]byte{3}, 200)
+
+	testCases := []struct {
+		name           string
+		opts           f10Opts
+		minLen, maxLen int
+	}{
+		{
+			// Reachable through the QueryRoutes rpc, which fills
+			// both RestrictParams.BlindedPaymentPathSet and
+			// RestrictParams.DestCustomRecords and hands the same
+			// records to newRoute (ChannelRouter.FindRoute).
+			name: "dest custom record of 200 bytes",
+			opts: f10Opts{
+				destCustomRecords: record.CustomSet{
+					record.CustomTypeStart: blob,
+				},
+			},
+			minLen: 700,
+			maxLen: 1300,
+		},
+		{
+			name: "metadata of 200 bytes",
+			opts: f10Opts{
+				metadata: blob,
+			},
+			minLen: 700,
+			maxLen: 1300,
+		},
+		{
+			// What paymentSession.RequestRoute (SendPaymentV2) does:
+			// RestrictParams.BlindedPaymentPathSet stays nil, so the
+			// NON blinded branch of lastHopPayloadSize is used. It
+			// counts the custom records and metadata, but neither
+			// the encrypted data nor the blinding point nor
+			// total_amount_msat of the blinded final hop.
+			name: "like RequestRoute, no records",
+			opts: f10Opts{
+				likeRequestRoute: true,
+			},
+			minLen: 900,
+			maxLen: 1300,
+		},
+	}
+
+	for _, tc := range testCases {
+		t.Run(tc.name, func(t *testing.T) {
+			ctx := newPathFindingTestContext(
+				t, true, testChannels, "start",
+			)
+
+			introVertex := ctx.keyFromAlias("intro")
+			introPk, err := btcec.ParsePubKey(introVertex[:])
+			require.NoError(t, err)
+
+			var (
+				numFound  int
+				numFail   int
+				firstFail *f10Result
+				lastFail  *f10Result
+				lastOK    *f10Result
+			)
+			for l := tc.minLen; l <= tc.maxLen; l++ {
+				res, ok := f10RunOpts(
+					t, ctx, introOnly(introPk, l), amt, amt,
+					height, tc.opts,
+				)
+				if !ok {
+					continue
+				}
+				numFound++
+
+				require.Equal(t, res.sphinxTotal, res.real)
+				require.LessOrEqual(
+					t, res.estimate,
+					uint64(sphinx.MaxRoutingPayloadSize),
+				)
+
+				if res.real <= sphinx.MaxRoutingPayloadSize &&
+					res.onionErr == nil {
+
+					lastOK = res
+					continue
+				}
+
+				numFail++
+				if firstFail == nil {
+					firstFail = res
+				}
+				lastFail = res
+			}
+
+			require.NotZero(t, numFound)
+
+			logRes := func(what string, res *f10Result) {
+				if res == nil {
+					return
+				}
+				t.Logf("%s: cipherLen=%d estimate=%d "+
+					"(lastHopEstimate=%d) real=%d perHop=%v "+
+					"onionErr=%v", what, res.cipherLen,
+					res.estimate, res.lastHopEst, res.real,
+					res.perHop, res.onionErr)
+			}
+			logRes("last route that fits", lastOK)
+			logRes("first route that does not fit", firstFail)
+			logRes("last route that does not fit", lastFail)
+
+			require.Zerof(t, numFail, "pathfinding returned %d "+
+				"routes (out of %d) whose real routing info "+
+				"size exceeds %d / for which "+
+				"sphinx.NewOnionPacket fails", numFail,
+				numFound, sphinx.MaxRoutingPayloadSize)
 		})
 	}
 }
